@@ -12,6 +12,8 @@
     (c) is a consequence of (a): a row created by COPY is a row of its own.
     (d) an operation issued in a session that opened the mailbox with EXAMINE
         ([ro = true]) changes nothing.
+    (e) flags are RFC 3501 flags ([valid_flag]): a STORE / APPEND that names
+        anything else is refused and changes nothing.
     COPY, APPEND and EXPUNGE of a read-write session are taken as the model
     has them (their own properties are C03/C09).  This file does not depend on
     how the model tests flags: the queries below are stated on their own. *)
@@ -29,9 +31,11 @@ Definition spec_update (ls : list link) (mb : Z) (targets : list Z) (item : str)
 Definition spec_step (e : env) (s : st) (o : op) : st :=
   match o with
   | OStore ro _ mb q item new =>
-      if ro then s else with_links s (spec_update (links s) mb (seq_targets (links s) mb q) item new)
+      if ro || negb (flags_valid new) then s
+      else with_links s (spec_update (links s) mb (seq_targets (links s) mb q) item new)
   | OUidStore ro _ mb q item new =>
-      if ro then s else with_links s (spec_update (links s) mb (expand_uid (links s) mb q) item new)
+      if ro || negb (flags_valid new) then s
+      else with_links s (spec_update (links s) mb (expand_uid (links s) mb q) item new)
   | OExpunge ro mb => if ro then s else step e s o
   | _ => step e s o
   end.
@@ -64,9 +68,11 @@ Definition junk_class (e : env) (mb : Z) (item : str) (new : list str) (rows : l
 Definition classify (e : env) (s : st) (o : op) : option cls :=
   match o with
   | OStore ro _ mb q item new =>
-      if ro then None else junk_class e mb item new (rows_of_uids (links s) mb (seq_targets (links s) mb q))
+      if ro || negb (flags_valid new) then None
+      else junk_class e mb item new (rows_of_uids (links s) mb (seq_targets (links s) mb q))
   | OUidStore ro _ mb q item new =>
-      if ro then None else junk_class e mb item new (rows_of_uids (links s) mb (expand_uid (links s) mb q))
+      if ro || negb (flags_valid new) then None
+      else junk_class e mb item new (rows_of_uids (links s) mb (expand_uid (links s) mb q))
   | _ => None
   end.
 
